@@ -78,6 +78,10 @@ type Case struct {
 	Limit   int   `json:"limit,omitempty"`
 	RotMode int   `json:"rot_mode,omitempty"`
 	Lens    []int `json:"lens,omitempty"`
+	// g: N simultaneous ChannelSink.Process calls on a buffered channel with Free free slots (capacity Free+1, one slot prefilled), nobody draining
+	Free   int `json:"free,omitempty"`
+	N      int `json:"n,omitempty"`
+	Rounds int `json:"rounds,omitempty"`
 }
 
 func bytesOf(v []int) []byte {
@@ -790,6 +794,149 @@ func (e *emitter) runP(cases []Case) {
 	}
 }
 
+// ---------- g: simultaneous ChannelSink.Process calls, fewer free slots than callers, nobody draining ----------
+type gobs struct {
+	Arms        []int  `json:"arms"`
+	Hung        int    `json:"hung"`
+	DeliveredOK bool   `json:"delivered_ok"`
+	Early       bool   `json:"early"`
+	Latency     int64  `json:"latency_ms"`
+	Dump        string `json:"goroutine_dump,omitempty"`
+}
+
+// execG repeats the round until one shows an anomaly (a caller that never returned, a wrong arm, a wrong channel content) or Rounds
+// rounds have passed; the callers are released through a spin barrier so that they enter Process within nanoseconds of each other
+func execG(c Case) (o gobs, rounds int) {
+	n := c.Rounds
+	if n <= 0 {
+		n = 1
+	}
+	for rounds = 1; rounds <= n; rounds++ {
+		o = execGRound(c)
+		oks := 0
+		for _, a := range o.Arms {
+			if a == 0 {
+				oks++
+			}
+		}
+		lim := c.Free
+		if c.N < lim {
+			lim = c.N
+		}
+		if o.Hung > 0 || !o.DeliveredOK || o.Early || oks > lim || len(o.Arms) != c.N {
+			return
+		}
+	}
+	rounds = n
+	return
+}
+
+func execGRound(c Case) gobs {
+	prefill := &el.Event{Type: "prefill"}
+	ch := make(chan *el.Event, c.Free+1)
+	ch <- prefill
+	cs, err := channel.NewChannelSink(ch, time.Duration(c.Timeout)*time.Millisecond)
+	if err != nil {
+		panic(err)
+	}
+	type ret struct {
+		i   int
+		arm int
+		lat time.Duration
+	}
+	evs := make([]*el.Event, c.N)
+	rets := make(chan ret, c.N)
+	var arrived int32
+	var ready sync.WaitGroup
+	for i := 0; i < c.N; i++ {
+		evs[i] = &el.Event{Type: "t"}
+		ready.Add(1)
+		go func(i int) {
+			ready.Done()
+			atomic.AddInt32(&arrived, 1)
+			for atomic.LoadInt32(&arrived) < int32(c.N) {
+				runtime.Gosched()
+			}
+			t0 := time.Now()
+			out, perr := cs.Process(context.Background(), evs[i])
+			lat := time.Since(t0)
+			arm := 3
+			switch {
+			case perr == nil && out == nil:
+				arm = 0
+			case perr != nil && out == nil && strings.Contains(perr.Error(), "chan write timeout"):
+				arm = 2
+			}
+			rets <- ret{i, arm, lat}
+		}(i)
+	}
+	ready.Wait()
+	o := gobs{Arms: []int{}, DeliveredOK: true}
+	okCaller := map[int]bool{}
+	watchdog := time.After(50*time.Duration(c.Timeout+20)*time.Millisecond + time.Second)
+collect:
+	for got := 0; got < c.N; got++ {
+		select {
+		case r := <-rets:
+			o.Arms = append(o.Arms, r.arm)
+			if r.arm == 0 {
+				okCaller[r.i] = true
+			}
+			if r.arm == 2 && r.lat < time.Duration(c.Timeout)*time.Millisecond {
+				o.Early = true
+			}
+			if r.lat.Milliseconds() > o.Latency {
+				o.Latency = r.lat.Milliseconds()
+			}
+		case <-watchdog:
+			o.Hung = c.N - got
+			buf := make([]byte, 1<<15)
+			o.Dump = string(buf[:runtime.Stack(buf, true)])
+			break collect
+		}
+	}
+	sort.Ints(o.Arms)
+	// what the channel holds: the prefill and exactly the events of the callers that reported success
+	seen := map[*el.Event]bool{}
+	for {
+		select {
+		case x := <-ch:
+			if x == prefill {
+				continue
+			}
+			idx := -1
+			for i, e := range evs {
+				if e == x {
+					idx = i
+				}
+			}
+			if idx < 0 || seen[x] || (o.Hung == 0 && !okCaller[idx]) {
+				o.DeliveredOK = false
+			}
+			seen[x] = true
+			continue
+		default:
+		}
+		break
+	}
+	if o.Hung == 0 && len(seen) != len(okCaller) {
+		o.DeliveredOK = false
+	}
+	return o
+}
+func litG(c Case, o gobs) string {
+	return fmt.Sprintf("(%s, CG (Build_gcase %s %s %s (Build_gobs %s %s %s %s %s)))", hc.N(c.ID), hc.N(c.Free), hc.N(c.N), hc.Z(int64(c.Timeout)),
+		nlist(o.Arms), hc.N(o.Hung), hc.B(o.DeliveredOK), hc.B(o.Early), hc.Z(o.Latency))
+}
+
+func genG(e *emitter, rounds int) {
+	for _, free := range []int{0, 1, 2, 3} {
+		for _, n := range []int{4, 8} {
+			e.run(Case{Kind: "g", Gen: "scenarios", Free: free, N: n, Timeout: 5, Rounds: rounds})
+		}
+	}
+}
+
 // ---------- emitter ----------
 type emitter struct {
 	cf      *hc.CaseFile
@@ -852,6 +999,16 @@ func (e *emitter) run(c Case) {
 			return
 		}
 		e.record(c, litF(c, res, got), fmt.Sprintf("f:kind%d:res%d", c.FKind, res), len(got) > 0 || res != 0)
+	case "g":
+		o, rounds := execG(c)
+		e.mu.Lock()
+		e.stats["g:rounds"] += rounds
+		e.mu.Unlock()
+		stat := fmt.Sprintf("g:free%d:n%02d", c.Free, c.N)
+		if o.Hung > 0 {
+			stat += ":HUNG"
+		}
+		e.record(c, litG(c, o), stat, true)
 	case "h":
 		o := execH(c)
 		ca, xa := hParams(c)
@@ -1055,9 +1212,10 @@ func runCorpus(e *emitter, path string) {
 func main() {
 	out := flag.String("out", ".", "output directory")
 	prefix := flag.String("prefix", "cases", "case file prefix")
-	modes := flag.String("modes", "w,c,f,h,p", "generators")
+	modes := flag.String("modes", "w,c,f,h,p,g", "generators")
 	concRounds := flag.Int("conc-rounds", 2, "rounds of 1..16 concurrent threads")
 	chanRepeat := flag.Int("chan-repeat", 1, "repetitions of the channel scenarios")
+	chanRounds := flag.Int("chan-rounds", 120, "rounds per concurrent ChannelSink configuration")
 	perShard := flag.Int("per-shard", 250, "cases per file")
 	corpus := flag.String("corpus", "", "corpus file (JSON lines), run first")
 	replay := flag.String("replay", "", "replay one JSON case and print its observations")
@@ -1104,6 +1262,13 @@ func main() {
 			o := execH(c)
 			js, _ := json.Marshal(o)
 			fmt.Printf("  -> %s (arm 0 sent, 1 context error, 2 timeout error)\n", js)
+		case "g":
+			o, rounds := execG(c)
+			fmt.Printf("  rounds run: %d\n", rounds)
+			d := o.Dump
+			o.Dump = ""
+			js, _ := json.Marshal(o)
+			fmt.Printf("  -> %s (arms per caller: 0 sent, 2 timeout error; hung = callers that never returned)\n%s\n", js, d)
 		case "p":
 			steps, err := execP([]Case{c}, scratch)
 			if err != nil {
@@ -1145,6 +1310,8 @@ func main() {
 			genH(e, *chanRepeat)
 		case "p":
 			genP(e, r.Fork(), *partialRandom)
+		case "g":
+			genG(e, *chanRounds)
 		case "":
 		default:
 			fmt.Fprintf(os.Stderr, "unknown mode %s\n", m)
